@@ -290,6 +290,14 @@ def check_against_ref(h, ref: Ref, site, fails, handles=None):
         return F("node-iteration", f"got {got_nodes} expected {live}")
     if len(h) != len(live) or h.num_nodes() != len(live):
         return F("node-count", f"{len(h)} vs {len(live)}")
+    # the other ways of iterating / looking up nodes agree with `iter`
+    via_nodes = [(n.idx, id(d)) for n, d in h.nodes()]
+    via_items = [(n.idx, id(d)) for n, d in h.items()]
+    via_get = [(i, id(h[Node(i)])) for i in live]
+    if via_nodes != via_get or via_items != via_get:
+        return F("node-iteration", "nodes()/items() differ from lookup of the iterated nodes")
+    if any(Node(i) not in h for i in live) or any(Node(i) in h for i in range(max(live) + 3) if i not in ref.nodes):
+        return F("node-membership", "`in` disagrees with the live nodes")
     # deleted nodes unreachable
     for idx in range(0, max(live) + 3):
         if idx not in ref.nodes:
